@@ -943,4 +943,612 @@ theorem sim_results (cfg : Cfg) (hw : CfgWF cfg) (ops : List Op) :
       congr 1
       exact ih s' _ e.now _ _ hs' hn' hsafe'
 
+/-! ### facts about the abstract machine -/
+
+/-- answers of the abstract machine paired with the events -/
+def absObs (cfg : Cfg) : Cnt → List Ev → List (Ev × Bool)
+  | _, [] => []
+  | c, e :: t => (e, (absStep cfg c e).2) :: absObs cfg (absStep cfg c e).1 t
+
+theorem observe_abs (cfg : Cfg) (ops : List Op) (c : Cnt) :
+    observe ops (absResults cfg c ops) = absObs cfg c (evs ops) := by
+  induction ops generalizing c with
+  | nil => rfl
+  | cons op ops ih =>
+    cases op with
+    | expire k => simp only [absResults, observe, evs]; exact ih c
+    | ev e =>
+      simp only [absResults, observe, evs, absObs]
+      congr 1
+      · congr 1
+        cases (absStep cfg c e).2 <;> simp
+      · exact ih _
+
+theorem hits_iff (cfg : Cfg) (lk : Bytes) (id : Int) (e : Ev) :
+    hits cfg lk id e = true ↔ limKeyOf cfg e = some lk ∧ attr cfg e = id := by
+  unfold hits; simp
+
+/-- an event that does not hit (lk, id) leaves every counter of (lk, id) alone -/
+theorem absStep_frame (cfg : Cfg) (c : Cnt) (e : Ev) (lk : Bytes) (id : Int)
+    (h : hits cfg lk id e = false) (d : Nat) : (absStep cfg c e).1 lk id d = c lk id d := by
+  unfold absStep
+  cases hr : ruleOf cfg e with
+  | none => rfl
+  | some ir =>
+    simp only
+    split
+    · rfl
+    · simp only [cnt_add_apply]
+      have : ¬ (lk = limKey ir.1 (throttleKey e) ∧ id = attr cfg e ∧
+          d = (colLim ir.2 (c (limKey ir.1 (throttleKey e)) (attr cfg e)) e).1) := by
+        intro hh
+        have : hits cfg lk id e = true := by
+          rw [hits_iff]; unfold limKeyOf; rw [hr]; exact ⟨by rw [hh.1], hh.2.1.symm⟩
+        rw [h] at this; cases this
+      simp [this]
+
+/-- what an event of rule `(i, r)` with a non-negative limit does to the machine -/
+theorem absStep_rule (cfg : Cfg) (c : Cnt) (e : Ev) (ir : Nat × Rule) (hr : ruleOf cfg e = some ir)
+    (h0 : 0 ≤ ir.2.limit) :
+    absStep cfg c e =
+      ((c.add (limKey ir.1 (throttleKey e)) (attr cfg e)
+          (colLim ir.2 (c (limKey ir.1 (throttleKey e)) (attr cfg e)) e).1 (evVal ir.2.kind e)),
+       decide (c (limKey ir.1 (throttleKey e)) (attr cfg e)
+          (colLim ir.2 (c (limKey ir.1 (throttleKey e)) (attr cfg e)) e).1 + evVal ir.2.kind e
+            ≤ (colLim ir.2 (c (limKey ir.1 (throttleKey e)) (attr cfg e)) e).2)) := by
+  unfold absStep
+  rw [hr]
+  have : ¬ ir.2.limit < 0 := by omega
+  simp only [this, ↓reduceIte, cnt_add_apply]
+  simp
+
+theorem evVal_nonneg (k : Kind) (e : Ev) (h : 0 ≤ e.size) : 0 ≤ evVal k e := by
+  cases k <;> simp [evVal, h]
+
+/-- counters never decrease when sizes are non-negative -/
+theorem absStep_mono (cfg : Cfg) (c : Cnt) (e : Ev) (hsz : 0 ≤ e.size) (k : Bytes) (x : Int) (d : Nat) :
+    c k x d ≤ (absStep cfg c e).1 k x d := by
+  unfold absStep
+  cases hr : ruleOf cfg e with
+  | none => exact Int.le_refl _
+  | some ir =>
+    simp only
+    split
+    · exact Int.le_refl _
+    · simp only [cnt_add_apply]
+      have := evVal_nonneg ir.2.kind e hsz
+      split <;> omega
+
+/-- an event that hits `(limKey i key, id)` is an event of rule `i` -/
+theorem hit_rule (cfg : Cfg) (hw : CfgWF cfg) (i : Nat) (r : Rule) (key : Bytes) (id : Int) (e : Ev)
+    (hr : cfg.rules[i]? = some r) (h : hits cfg (limKey i key) id e = true) :
+    ∃ ir, ruleOf cfg e = some ir ∧ ir.2 = r ∧ limKey ir.1 (throttleKey e) = limKey i key ∧ attr cfg e = id := by
+  rw [hits_iff] at h
+  obtain ⟨h1, h2⟩ := h
+  unfold limKeyOf at h1
+  cases hro : ruleOf cfg e with
+  | none => rw [hro] at h1; cases h1
+  | some ir =>
+    rw [hro] at h1
+    simp only [Option.some.injEq] at h1
+    have hrule := ruleOf_some cfg e ir hro
+    obtain ⟨hi, _⟩ := rule_idx_lt cfg hw i r hr
+    obtain ⟨hj, _⟩ := rule_idx_lt cfg hw ir.1 ir.2 hrule
+    obtain ⟨hij, _⟩ := limKey_inj _ _ _ _ hj hi h1
+    rw [hij, hr] at hrule
+    cases hrule
+    exact ⟨ir, rfl, rfl, h1, h2⟩
+
+theorem valOf_rule (cfg : Cfg) (e : Ev) (ir : Nat × Rule) (h : ruleOf cfg e = some ir) :
+    valOf cfg e = evVal ir.2.kind e := by
+  unfold valOf; rw [h]
+
+theorem sizesOK_cons (e : Ev) (t : List Ev) (h : sizesOK (e :: t) = true) : 0 ≤ e.size ∧ sizesOK t = true := by
+  simpa [sizesOK] using h
+
+/-- **per-bucket limit on the abstract machine** (rule without distribution): whatever was
+    already counted (`base`), the passed amount never takes the bucket over the rule's limit -/
+theorem abs_passed_le (cfg : Cfg) (hw : CfgWF cfg) (i : Nat) (r : Rule) (key : Bytes) (id : Int)
+    (hr : cfg.rules[i]? = some r) (h0 : 0 ≤ r.limit) (hd : r.distr.isEnabled = false) :
+    ∀ (es : List Ev) (c : Cnt) (base : Int), sizesOK es = true →
+      base ≤ c (limKey i key) id 0 → base ≤ r.limit →
+      base + passed cfg (limKey i key) id (absObs cfg c es) ≤ r.limit := by
+  intro es
+  induction es with
+  | nil => intro c base _ _ hb; simpa [absObs, passed] using hb
+  | cons e t ih =>
+    intro c base hsz hbc hbl
+    obtain ⟨hs0, hst⟩ := sizesOK_cons e t hsz
+    simp only [absObs, passed]
+    cases hh : hits cfg (limKey i key) id e with
+    | false =>
+      simp only [Bool.and_false, Bool.false_eq_true, ↓reduceIte, Int.zero_add]
+      exact ih _ base hst (by rw [absStep_frame cfg c e _ _ hh]; exact hbc) hbl
+    | true =>
+      obtain ⟨ir, hro, hir, hlk, hat⟩ := hit_rule cfg hw i r key id e hr hh
+      have hstep := absStep_rule cfg c e ir hro (by rw [hir]; exact h0)
+      have hcl : ∀ g, colLim ir.2 g e = (0, r.limit) := by
+        intro g; unfold colLim; rw [hir, hd]; simp
+      rw [hcl, hlk, hat, hir] at hstep
+      simp only at hstep
+      have hv := evVal_nonneg r.kind e hs0
+      rw [valOf_rule cfg e ir hro, hir]
+      cases ha : (absStep cfg c e).2 with
+      | false =>
+        simp only [Bool.false_and, Bool.false_eq_true, ↓reduceIte, Int.zero_add]
+        refine ih _ base hst ?_ hbl
+        have := absStep_mono cfg c e hs0 (limKey i key) id 0
+        omega
+      | true =>
+        simp only [Bool.and_self, ↓reduceIte]
+        rw [hstep] at ha
+        simp only [decide_eq_true_eq] at ha
+        have hc' : (absStep cfg c e).1 (limKey i key) id 0 = c (limKey i key) id 0 + evVal r.kind e := by
+          rw [hstep]; simp [cnt_add_apply]
+        have := ih (absStep cfg c e).1 (base + evVal r.kind e) hst (by rw [hc']; omega) (by omega)
+        omega
+
+/-! ### distribution shares on the abstract machine -/
+
+/-- share of a distribution column: column 0 is the default distribution -/
+def shareOf (d : Distr) : Nat → Int
+  | 0 => d.defLimit
+  | j + 1 =>
+    match d.limits[j]? with
+    | some s => s
+    | none => 0
+
+theorem drop_cons_facts (l : List Int) (i : Nat) (a : Int) (t : List Int) (h : a :: t = l.drop i) :
+    l[i]? = some a ∧ t = l.drop (i + 1) := by
+  have h1 : (l.drop i)[0]? = some a := by rw [← h]; rfl
+  rw [List.getElem?_drop] at h1
+  refine ⟨by simpa using h1, ?_⟩
+  have : (l.drop i).tail = t := by rw [← h]; rfl
+  rw [← this, List.tail_drop]
+
+theorem stealA_share (d : Distr) (get : Nat → Int) (val : Int) (ds : List Int) (i : Nat) (p : PickA)
+    (hds : ds = d.limits.drop i) (hp : p.limit = shareOf d p.col) :
+    (stealA get val ds i p).limit = shareOf d (stealA get val ds i p).col := by
+  induction ds generalizing i p with
+  | nil => exact hp
+  | cons dl ds ih =>
+    obtain ⟨h1, h2⟩ := drop_cons_facts d.limits i dl ds hds
+    unfold stealA
+    split
+    · apply ih (i + 1) _ h2
+      simp only [shareOf, h1]
+    · exact ih (i + 1) p h2 hp
+
+theorem colLim_share (r : Rule) (g : Nat → Int) (e : Ev) (he : r.distr.isEnabled = true) :
+    (colLim r g e).2 = shareOf r.distr (colLim r g e).1 := by
+  unfold colLim
+  rw [he]
+  simp only [↓reduceIte]
+  unfold distrA
+  split
+  · split
+    · rename_i s hs
+      simp only [shareOf, hs]
+    · rfl
+  · split
+    · rfl
+    · exact stealA_share r.distr g _ _ 0 _ (by simp) rfl
+
+theorem colLim_listed (r : Rule) (g : Nat → Int) (e : Ev) (he : r.distr.isEnabled = true) (j : Nat)
+    (sj : Int) (hl : listedIdx r.distr e = some j) (hs : r.distr.limits[j]? = some sj) :
+    colLim r g e = (j + 1, sj) := by
+  unfold colLim
+  rw [he]
+  simp only [↓reduceIte]
+  unfold distrA
+  rw [hl]
+  simp only [hs]
+
+/-- `Σ_{κ < n} f κ` -/
+def sumF : Nat → (Nat → Int) → Int
+  | 0, _ => 0
+  | n + 1, f => sumF n f + f n
+
+theorem sumF_le (n : Nat) (f g : Nat → Int) (h : ∀ κ, κ < n → f κ ≤ g κ) : sumF n f ≤ sumF n g := by
+  induction n with
+  | zero => exact Int.le_refl _
+  | succ n ih =>
+    have := ih (fun κ hk => h κ (by omega))
+    have := h n (by omega)
+    simp only [sumF]; omega
+
+theorem sumF_congr (n : Nat) (f g : Nat → Int) (h : ∀ κ, κ < n → f κ = g κ) : sumF n f = sumF n g := by
+  induction n with
+  | zero => rfl
+  | succ n ih =>
+    simp only [sumF]
+    rw [ih (fun κ hk => h κ (by omega)), h n (by omega)]
+
+theorem sumF_upd (n : Nat) (f : Nat → Int) (κ : Nat) (v : Int) (hk : κ < n) :
+    sumF n (fun x => if x = κ then f x + v else f x) = sumF n f + v := by
+  induction n with
+  | zero => omega
+  | succ n ih =>
+    simp only [sumF]
+    by_cases h : κ = n
+    · subst h
+      have : sumF κ (fun x => if x = κ then f x + v else f x) = sumF κ f :=
+        sumF_congr κ _ _ (fun x hx => by have : ¬ x = κ := by omega
+                                         simp [this])
+      rw [this]; simp; omega
+    · have h1 := ih (by omega)
+      have h2 : ¬ n = κ := fun e => h e.symm
+      rw [h1]; simp only [h2, ↓reduceIte]; omega
+
+theorem sumF_succ' (n : Nat) (f : Nat → Int) : sumF (n + 1) f = f 0 + sumF n (fun x => f (x + 1)) := by
+  induction n with
+  | zero => simp [sumF]
+  | succ n ih =>
+    have : sumF (n + 1 + 1) f = sumF (n + 1) f + f (n + 1) := rfl
+    rw [this, ih]
+    simp only [sumF]; omega
+
+theorem sumF_list (l : List Int) (g : Nat → Int)
+    (h : ∀ j, g j = match l[j]? with | some s => s | none => 0) : sumF l.length g = sumInts l := by
+  induction l generalizing g with
+  | nil => rfl
+  | cons a t ih =>
+    simp only [List.length_cons, sumInts]
+    rw [sumF_succ', ih (fun x => g (x + 1)) (fun j => by rw [h (j + 1)]; simp)]
+    have := h 0
+    simp at this
+    rw [this]
+
+theorem sumF_shares (d : Distr) : sumF (d.limits.length + 1) (shareOf d) = sumShares d := by
+  rw [sumF_succ', sumF_list d.limits (fun x => shareOf d (x + 1)) (fun j => rfl)]
+  rfl
+
+/-- **share of a listed value on the abstract machine** -/
+theorem abs_listed_le (cfg : Cfg) (hw : CfgWF cfg) (i : Nat) (r : Rule) (key : Bytes) (id : Int)
+    (hr : cfg.rules[i]? = some r) (h0 : 0 ≤ r.limit) (he : r.distr.isEnabled = true)
+    (j : Nat) (sj : Int) (hsj : r.distr.limits[j]? = some sj) :
+    ∀ (es : List Ev) (c : Cnt) (base : Int), sizesOK es = true →
+      base ≤ c (limKey i key) id (j + 1) → base ≤ sj →
+      base + passedListed cfg r.distr (limKey i key) id j (absObs cfg c es) ≤ sj := by
+  intro es
+  induction es with
+  | nil => intro c base _ _ hb; simpa [absObs, passedListed] using hb
+  | cons e t ih =>
+    intro c base hsz hbc hbl
+    obtain ⟨hs0, hst⟩ := sizesOK_cons e t hsz
+    simp only [absObs, passedListed]
+    have hmono := absStep_mono cfg c e hs0 (limKey i key) id (j + 1)
+    by_cases hcon : ((absStep cfg c e).2 && hits cfg (limKey i key) id e &&
+        (listedIdx r.distr e == some j)) = true
+    · rw [if_pos hcon]
+      simp only [Bool.and_eq_true, beq_iff_eq] at hcon
+      obtain ⟨⟨ha, hh⟩, hlj⟩ := hcon
+      obtain ⟨ir, hro, hir, hlk, hat⟩ := hit_rule cfg hw i r key id e hr hh
+      have hstep := absStep_rule cfg c e ir hro (by rw [hir]; exact h0)
+      rw [hir, colLim_listed r _ e he j sj hlj hsj, hlk, hat] at hstep
+      simp only at hstep
+      rw [valOf_rule cfg e ir hro, hir]
+      rw [hstep] at ha
+      simp only [decide_eq_true_eq] at ha
+      have hc' : (absStep cfg c e).1 (limKey i key) id (j + 1)
+          = c (limKey i key) id (j + 1) + evVal r.kind e := by
+        rw [hstep]; simp [cnt_add_apply]
+      have := ih (absStep cfg c e).1 (base + evVal r.kind e) hst (by rw [hc']; omega) (by omega)
+      omega
+    · rw [if_neg hcon]
+      have := ih (absStep cfg c e).1 base hst (by omega) hbl
+      omega
+
+/-- **total of a distributed bucket on the abstract machine**: with `bases κ` already passed in
+    column `κ`, the passed total stays within the sum of the shares -/
+theorem abs_total_le (cfg : Cfg) (hw : CfgWF cfg) (i : Nat) (r : Rule) (key : Bytes) (id : Int)
+    (hr : cfg.rules[i]? = some r) (h0 : 0 ≤ r.limit) (he : r.distr.isEnabled = true) :
+    ∀ (es : List Ev) (c : Cnt) (bases : Nat → Int), sizesOK es = true →
+      (∀ κ, κ ≤ r.distr.limits.length →
+        bases κ ≤ c (limKey i key) id κ ∧ bases κ ≤ shareOf r.distr κ) →
+      sumF (r.distr.limits.length + 1) bases + passed cfg (limKey i key) id (absObs cfg c es)
+        ≤ sumF (r.distr.limits.length + 1) (shareOf r.distr) := by
+  intro es
+  induction es with
+  | nil =>
+    intro c bases _ hb
+    simp only [absObs, passed, Int.add_zero]
+    exact sumF_le _ _ _ (fun κ hk => (hb κ (by omega)).2)
+  | cons e t ih =>
+    intro c bases hsz hb
+    obtain ⟨hs0, hst⟩ := sizesOK_cons e t hsz
+    simp only [absObs, passed]
+    have hmono := fun κ => absStep_mono cfg c e hs0 (limKey i key) id κ
+    by_cases hcon : ((absStep cfg c e).2 && hits cfg (limKey i key) id e) = true
+    · rw [if_pos hcon]
+      simp only [Bool.and_eq_true] at hcon
+      obtain ⟨ha, hh⟩ := hcon
+      obtain ⟨ir, hro, hir, hlk, hat⟩ := hit_rule cfg hw i r key id e hr hh
+      have hstep := absStep_rule cfg c e ir hro (by rw [hir]; exact h0)
+      rw [hir, hlk, hat] at hstep
+      generalize hcl : colLim r (c (limKey i key) id) e = cl at hstep
+      have hcol : cl.1 ≤ r.distr.limits.length := by rw [← hcl]; exact colLim_col_le _ _ _
+      have hshare : cl.2 = shareOf r.distr cl.1 := by rw [← hcl]; exact colLim_share r _ e he
+      rw [valOf_rule cfg e ir hro, hir]
+      rw [hstep] at ha
+      simp only [decide_eq_true_eq] at ha
+      have hc' : ∀ κ, (absStep cfg c e).1 (limKey i key) id κ
+          = c (limKey i key) id κ + (if κ = cl.1 then evVal r.kind e else 0) := by
+        intro κ; rw [hstep]; simp [cnt_add_apply]
+      have := ih (absStep cfg c e).1 (fun x => if x = cl.1 then bases x + evVal r.kind e else bases x) hst
+        (by
+          intro κ hκ
+          obtain ⟨b1, b2⟩ := hb κ hκ
+          rw [hc' κ]
+          by_cases hk : κ = cl.1
+          · subst hk
+            simp only [↓reduceIte]
+            exact ⟨by omega, by rw [← hshare]; omega⟩
+          · simp only [hk, ↓reduceIte]
+            exact ⟨by omega, b2⟩)
+      rw [sumF_upd _ _ _ _ (by omega)] at this
+      omega
+    · rw [if_neg hcon]
+      have := ih (absStep cfg c e).1 bases hst
+        (fun κ hκ => ⟨by have := (hb κ hκ).1; have := hmono κ; omega, (hb κ hκ).2⟩)
+      omega
+
+/-! ### rejected only over the limit, on the abstract machine -/
+
+theorem arrived_append (cfg : Cfg) (lk : Bytes) (id : Int) (pre : List Ev) (e : Ev) :
+    arrived cfg lk id (pre ++ [e]) = arrived cfg lk id pre + (if hits cfg lk id e then valOf cfg e else 0) := by
+  induction pre with
+  | nil => simp [arrived]
+  | cons a t ih => simp only [List.cons_append, arrived, ih]; omega
+
+/-- counters of rules without distribution are exactly the arrivals -/
+def CountsArrivals (cfg : Cfg) (c : Cnt) (pre : List Ev) : Prop :=
+  ∀ i r key id, cfg.rules[i]? = some r → 0 ≤ r.limit → r.distr.isEnabled = false →
+    c (limKey i key) id 0 = arrived cfg (limKey i key) id pre
+
+theorem countsArrivals_step (cfg : Cfg) (hw : CfgWF cfg) (c : Cnt) (pre : List Ev) (e : Ev)
+    (h : CountsArrivals cfg c pre) : CountsArrivals cfg (absStep cfg c e).1 (pre ++ [e]) := by
+  intro i r key id hr h0 hd
+  rw [arrived_append, ← h i r key id hr h0 hd]
+  cases hh : hits cfg (limKey i key) id e with
+  | false => rw [absStep_frame cfg c e _ _ hh]; simp
+  | true =>
+    obtain ⟨ir, hro, hir, hlk, hat⟩ := hit_rule cfg hw i r key id e hr hh
+    have hstep := absStep_rule cfg c e ir hro (by rw [hir]; exact h0)
+    have hcl : ∀ g, colLim ir.2 g e = (0, r.limit) := by
+      intro g; unfold colLim; rw [hir, hd]; simp
+    rw [hcl, hlk, hat, hir] at hstep
+    rw [hstep, valOf_rule cfg e ir hro, hir]
+    simp [cnt_add_apply]
+
+theorem abs_rejectOK (cfg : Cfg) (hw : CfgWF cfg) :
+    ∀ (es : List Ev) (c : Cnt) (pre : List Ev), CountsArrivals cfg c pre →
+      rejectOK cfg pre (absObs cfg c es) = true := by
+  intro es
+  induction es with
+  | nil => intros; rfl
+  | cons e t ih =>
+    intro c pre hinv
+    have hinv' := countsArrivals_step cfg hw c pre e hinv
+    simp only [absObs, rejectOK, Bool.and_eq_true]
+    refine ⟨?_, ih _ _ hinv'⟩
+    cases hro : ruleOf cfg e with
+    | none => rfl
+    | some ir =>
+      simp only
+      split
+      · rfl
+      · rename_i hcond
+        simp only [Bool.or_eq_true, decide_eq_true_eq, not_or, Bool.not_eq_true, Int.not_lt] at hcond
+        obtain ⟨⟨ha, hd⟩, h0⟩ := hcond
+        have hrule := ruleOf_some cfg e ir hro
+        rw [← hinv' ir.1 ir.2 (throttleKey e) (attr cfg e) hrule h0 hd]
+        have hstep := absStep_rule cfg c e ir hro h0
+        have hcl : ∀ g, colLim ir.2 g e = (0, ir.2.limit) := by
+          intro g; unfold colLim; rw [hd]; simp
+        rw [hcl] at hstep
+        rw [hstep] at ha ⊢
+        simp only [decide_eq_false_iff_not, Int.not_le] at ha
+        simp only [cnt_add_apply, and_self, ↓reduceIte, decide_eq_true_eq]
+        exact ha
+
+/-! ### unlimited rules, on the abstract machine -/
+
+theorem abs_mustPass (cfg : Cfg) : ∀ (es : List Ev) (c : Cnt), ∀ x ∈ absObs cfg c es, mustPassOK cfg x = true := by
+  intro es
+  induction es with
+  | nil => intro c x hx; simp [absObs] at hx
+  | cons e t ih =>
+    intro c x hx
+    simp only [absObs, List.mem_cons] at hx
+    rcases hx with hx | hx
+    · subst hx
+      unfold mustPassOK absStep
+      cases hro : ruleOf cfg e with
+      | none => rfl
+      | some ir =>
+        simp only
+        split
+        · rfl
+        · simp
+    · exact ih _ x hx
+
+/-! ### keys are independent, on the abstract machine -/
+
+theorem absStep_other (cfg : Cfg) (c : Cnt) (e : Ev) (k : Bytes) (h : limKeyOf cfg e ≠ some k)
+    (x : Int) (d : Nat) : (absStep cfg c e).1 k x d = c k x d := by
+  apply absStep_frame
+  cases hh : hits cfg k x e with
+  | false => rfl
+  | true => rw [hits_iff] at hh; exact absurd hh.1 h
+
+theorem absStep_local (cfg : Cfg) (c1 c2 : Cnt) (e : Ev) (k : Bytes) (h : limKeyOf cfg e = some k)
+    (hag : ∀ x d, c1 k x d = c2 k x d) :
+    (absStep cfg c1 e).2 = (absStep cfg c2 e).2 ∧
+      ∀ x d, (absStep cfg c1 e).1 k x d = (absStep cfg c2 e).1 k x d := by
+  unfold limKeyOf at h
+  unfold absStep
+  cases hro : ruleOf cfg e with
+  | none => rw [hro] at h; cases h
+  | some ir =>
+    rw [hro] at h
+    simp only [Option.some.injEq] at h
+    simp only
+    split
+    · exact ⟨rfl, hag⟩
+    · rw [h]
+      have hf : c1 k (attr cfg e) = c2 k (attr cfg e) := funext (hag _)
+      rw [hf]
+      refine ⟨by simp only [cnt_add_apply, hag], ?_⟩
+      intro x d
+      simp only [cnt_add_apply, hag]
+
+theorem abs_keys_independent (cfg : Cfg) (k : Bytes) :
+    ∀ (ops : List Op) (c1 c2 : Cnt), (∀ x d, c1 k x d = c2 k x d) →
+      answersFor cfg k ops (absResults cfg c1 ops)
+        = answersFor cfg k (onKey cfg k ops) (absResults cfg c2 (onKey cfg k ops)) := by
+  intro ops
+  induction ops with
+  | nil => intros; rfl
+  | cons op ops ih =>
+    intro c1 c2 hag
+    cases op with
+    | expire k' =>
+      simp only [absResults, answersFor, onKey]
+      split
+      · simp only [absResults, answersFor]; exact ih c1 c2 hag
+      · exact ih c1 c2 hag
+    | ev e =>
+      simp only [absResults, answersFor, onKey]
+      by_cases h : limKeyOf cfg e = some k
+      · obtain ⟨h1, h2⟩ := absStep_local cfg c1 c2 e k h hag
+        simp only [h, ↓reduceIte, absResults, answersFor, h1]
+        congr 1
+        exact ih _ _ h2
+      · simp only [h, ↓reduceIte]
+        exact ih _ c2 (fun x d => by rw [absStep_other cfg c1 e k h]; exact hag x d)
+
+/-! ### the hypotheses survive the restriction to one key -/
+
+theorem nowOK_mono (cfg : Cfg) (es : List Ev) (l1 l2 : Int) (h : l2 ≤ l1) (hn : nowOK cfg l1 es = true) :
+    nowOK cfg l2 es = true := by
+  cases es with
+  | nil => rfl
+  | cons e t =>
+    simp only [nowOK, Bool.and_eq_true, decide_eq_true_eq] at hn ⊢
+    exact ⟨⟨by omega, hn.1.2⟩, hn.2⟩
+
+theorem nowOK_onKey (cfg : Cfg) (k : Bytes) : ∀ (ops : List Op) (last : Int),
+    nowOK cfg last (evs ops) = true → nowOK cfg last (evs (onKey cfg k ops)) = true := by
+  intro ops
+  induction ops with
+  | nil => intros; rfl
+  | cons op ops ih =>
+    intro last hn
+    cases op with
+    | expire k' =>
+      simp only [onKey, evs] at hn ⊢
+      split
+      · simp only [evs]; exact ih last hn
+      · exact ih last hn
+    | ev e =>
+      simp only [onKey, evs] at hn ⊢
+      simp only [nowOK, Bool.and_eq_true, decide_eq_true_eq] at hn
+      split
+      · simp only [evs, nowOK, Bool.and_eq_true, decide_eq_true_eq]
+        exact ⟨hn.1, ih _ hn.2⟩
+      · exact nowOK_mono cfg _ _ _ hn.1.1 (ih _ hn.2)
+
+theorem safe_onKey (cfg : Cfg) (k : Bytes) : ∀ (ops : List Op) (live live' : List Bytes) (hist hist' : List Ev),
+    (k ∈ live → k ∈ live') → (∀ e' ∈ hist', e' ∈ hist) → SafeExpiry cfg live hist ops →
+    SafeExpiry cfg live' hist' (onKey cfg k ops) := by
+  intro ops
+  induction ops with
+  | nil => intros; trivial
+  | cons op ops ih =>
+    intro live live' hist hist' hl hh hs
+    cases op with
+    | expire k' =>
+      simp only [SafeExpiry] at hs
+      simp only [onKey]
+      split
+      · rename_i hk
+        simp only [SafeExpiry]
+        apply ih _ _ _ _ _ hh hs
+        intro hmem
+        simp [hk] at hmem
+      · rename_i hk
+        apply ih _ _ _ _ _ hh hs
+        intro hmem
+        simp only [List.mem_filter] at hmem
+        exact hl hmem.1
+    | ev e =>
+      simp only [SafeExpiry] at hs
+      obtain ⟨hhead, htail⟩ := hs
+      simp only [onKey]
+      split
+      · rename_i hk
+        simp only [SafeExpiry, hk]
+        refine ⟨?_, ?_⟩
+        · intro k0 hk0
+          cases hk0
+          rcases hhead k hk with h | h
+          · exact Or.inl (hl h)
+          · exact Or.inr (fun e' he' => h e' (hh e' he'))
+        · rw [hk] at htail
+          apply ih _ _ _ _ _ _ htail
+          · intro hmem
+            simp only [List.mem_cons] at hmem ⊢
+            rcases hmem with h | h
+            · exact Or.inl h
+            · exact Or.inr (hl h)
+          · intro e' he'
+            simp only [List.mem_cons] at he' ⊢
+            rcases he' with h | h
+            · exact Or.inl h
+            · exact Or.inr (hh e' h)
+      · rename_i hk
+        apply ih _ _ _ _ _ _ htail
+        · intro hmem
+          cases hlk : limKeyOf cfg e with
+          | none => rw [hlk] at hmem; exact hl hmem
+          | some k0 =>
+            rw [hlk] at hmem
+            simp only [List.mem_cons] at hmem
+            rcases hmem with h | h
+            · rw [← h] at hlk; exact absurd hlk hk
+            · exact hl h
+        · intro e' he'
+          exact List.mem_cons_of_mem _ (hh e' he')
+
+theorem safe_of_noExpire (cfg : Cfg) : ∀ (ops : List Op) (live : List Bytes) (hist : List Ev),
+    (∀ e' ∈ hist, ∀ k, limKeyOf cfg e' = some k → k ∈ live) → noExpire ops = true →
+    SafeExpiry cfg live hist ops := by
+  intro ops
+  induction ops with
+  | nil => intros; trivial
+  | cons op ops ih =>
+    intro live hist hinv hne
+    cases op with
+    | expire k => simp [noExpire] at hne
+    | ev e =>
+      simp only [noExpire] at hne
+      simp only [SafeExpiry]
+      refine ⟨?_, ?_⟩
+      · intro k hk
+        by_cases hm : k ∈ live
+        · exact Or.inl hm
+        · right
+          intro e' he' hk'
+          exact absurd (hinv e' he' k hk') hm
+      · apply ih _ _ _ hne
+        intro e' he' k hk
+        simp only [List.mem_cons] at he'
+        rcases he' with h | h
+        · subst h; rw [hk]; exact List.mem_cons_self
+        · have := hinv e' h k hk
+          cases limKeyOf cfg e with
+          | none => exact this
+          | some k0 => exact List.mem_cons_of_mem _ this
+
 end FileD.ThrottleLemmas
